@@ -709,6 +709,19 @@ def _check_equal_interval_formulas(prog, rep, m, g):
         for v_ in vs_:
             if isinstance(v_, ast.AST) and norm(v_) in names and n_ not in names:
                 names = dict(names, **{n_: names[norm(v_)]})     # local aliases of nan / inf (whatever they are called)
+
+    def kind_of(e_):
+        # 'nan' / 'inf' for an expression that is that value whatever the test of a conditional expression says
+        t_ = names.get(norm(e_))
+        if t_:
+            return t_
+        if isinstance(e_, ast.IfExp):
+            a_, b_ = kind_of(e_.body), kind_of(e_.orelse)
+            return a_ if a_ == b_ else None
+        v_ = getattr(e_, '_xrsa_const', None)
+        if isinstance(v_, float) and v_ != v_:
+            return 'nan'
+        return None
     # ... and the range is taken in floating point on every path: the extrema are reductions of the NaN-filled array (a
     # `where(.., nan, data)` promotes an integer raster to float64) or of a float cast of it.  A selection `data[mask]` keeps
     # the raster's own dtype: for an int16 raster spanning more than 32767 the difference max - min wraps around.
@@ -761,9 +774,9 @@ def _check_equal_interval_formulas(prog, rep, m, g):
                 base = inf_expr(x_, st)
                 if base is None:
                     return None
-                if not finite_true and names.get(norm(e.args[1])) == 'nan' and norm(e.args[2]) == norm(x_):
+                if not finite_true and kind_of(e.args[1]) == 'nan' and norm(e.args[2]) == norm(x_):
                     return base | signs
-                if finite_true and names.get(norm(e.args[2])) == 'nan' and norm(e.args[1]) == norm(x_):
+                if finite_true and kind_of(e.args[2]) == 'nan' and norm(e.args[1]) == norm(x_):
                     return BOTH
                 return None
             if nm_ in ('astype', 'ravel', 'flatten', 'reshape', 'compute', 'copy', 'persist', 'rechunk') and isinstance(e.func, ast.Attribute):
@@ -787,7 +800,7 @@ def _check_equal_interval_formulas(prog, rep, m, g):
         if isinstance(e, ast.Call):
             nm_ = short(e)
             if nm_ == 'where' and len(e.args) == 3:
-                if any(names.get(norm(a_)) == 'nan' for a_ in e.args[1:]):
+                if any(kind_of(a_) == 'nan' for a_ in e.args[1:]):
                     return 'float'
                 a_, b_ = fl_expr(e.args[1], st), fl_expr(e.args[2], st)
                 return a_ if a_ == b_ else None
